@@ -28,11 +28,18 @@ WORKER = os.path.join(os.path.dirname(os.path.dirname(os.path.abspath(__file__))
 
 
 def call_worker(spec):
-    p = subprocess.run(["/venv/bin/python", WORKER], input=json.dumps(spec), capture_output=True, text=True, timeout=120)
+    p = subprocess.run(["/venv/bin/python", WORKER], input=json.dumps(spec), capture_output=True, text=True, timeout=120,
+                       env=dict(os.environ, C17VAR="expanded-from-the-environment"))
     try:
         return json.loads(p.stdout.strip().splitlines()[-1])
     except Exception:
         return {"errors": [p.stderr[-500:]]}
+
+
+# string field values: whatever a string holds is DATA - text that looks like an environment variable reference (the worker
+# runs with C17VAR / HOME / PATH set), a format or template placeholder, a YAML keyword, number, tag, anchor or comment
+STRINGS = ["a", "b", "1", "$C17VAR", "${C17VAR}", "$HOME/x", "${PATH}", "$$", "%(x)s", "%s", "{x}", "{{x}}", "~", "~/cfg", "null", "yes", "off", "0x10",
+           "1e3", "007", "", " ", " lead", "trail ", "#c", "a #c", "a: b", "- a", "!t", "*a", "&a", "[1]", "{a: 1}", "é", "\\n", "'q'", '"q"', "@x", "`x`", "a\tb"]
 
 
 def gen_spec(rng, n_classes, order, unknown=False):
@@ -42,7 +49,7 @@ def gen_spec(rng, n_classes, order, unknown=False):
     same_names = rng.random() < 0.5
     for i in range(n_classes):
         # the same class NAME may occur in both modules (gm0.K0 and gm1.K0 are different classes with different tags)
-        classes.append((f"gm{i % 2}", f"K{i // 2}" if same_names else f"K{i}", sig_a if i < max(2, n_classes - 1) else sig_b))
+        classes.append((f"gm{i % 2}", f"K{i // 2}" if same_names else f"K{i}", sig_a if (i < max(2, n_classes - 1) and i % 2 == 0) else sig_b))
     modules = {}
     for m, c, f in classes:
         modules.setdefault(m, []).append([c, f])
@@ -70,7 +77,7 @@ def gen_spec(rng, n_classes, order, unknown=False):
         names.append(nm)
         e = {"type": f"{m}.{c}", "name": nm, "inputs": {}}
         for fn, ft in f:
-            e[fn] = rng.randrange(100) if ft == "int" else ([rng.randrange(5), rng.randrange(5)] if ft == "tuple" else rng.choice(["a", "b", "1"]))
+            e[fn] = rng.randrange(100) if ft == "int" else ([rng.randrange(5), rng.randrange(5)] if ft == "tuple" else rng.choice(STRINGS))
         return e
 
     def system(depth, prefix):
@@ -103,7 +110,16 @@ def gen_spec(rng, n_classes, order, unknown=False):
             e["name"] = ren.get(e["name"], e["name"])
             for q in e["inputs"].values():
                 q["component"] = ren.get(q["component"], q["component"])
-    if unknown:
+    if unknown == "malformed":
+        # an entry whose fields do not fit the class its tag names (required field missing / of the wrong type / a field
+        # the class does not have is tolerated by pydantic dataclasses only if declared): it is rejected, not loaded as something else
+        devs = [e for e in top if "components" not in e]
+        e = rng.choice(devs)
+        if rng.random() < 0.5:
+            del e["x"]
+        else:
+            e["x"] = rng.choice(["not-a-number", [1, 2], {"a": 1}])
+    elif unknown:
         top[rng.randrange(len(top))]["type"] = rng.choice(["gm0.Nope", "nomodule.K0", "gm0.K99"])
     tops = [str(e["name"]) for e in top]
     sels = [None, tops[:1], tops[::2], tops + ["ghost"], []]
@@ -133,6 +149,8 @@ def run(tier, seed, drv):
                 specs.append(gen_spec(rng, n, order) + (False,))
     for _ in range(4 if tier == "quick" else 20):
         specs.append(gen_spec(rng, 3, (0, 1), unknown=True) + (True,))
+    for _ in range(4 if tier == "quick" else 20):
+        specs.append(gen_spec(rng, 3, (0, 1), unknown="malformed") + ("malformed",))
     with ThreadPoolExecutor(max_workers=12) as ex:
         outs = list(ex.map(lambda s: call_worker(s[0]), specs))
     reqs = []
@@ -150,6 +168,11 @@ def run(tier, seed, drv):
         if out.get("errors"):
             res.violate(V("worker-error", out["errors"][0][-300:], site="worker"), case)
             continue
+        if unknown == "malformed":
+            res.count("malformed-entry")
+            if "load_error" not in out:
+                res.violate(V("malformed-entry-accepted", f"an entry whose fields do not fit its class was loaded: {out.get('loaded')}", site="read_configs"), case)
+            continue
         if unknown:
             if "load_error" not in out:
                 res.violate(V("unknown-tag-accepted", f"entries with an unknown type tag were loaded: {[d['class'] for d in out.get('loaded', [])]}", site="read_configs"), case)
@@ -160,6 +183,9 @@ def run(tier, seed, drv):
             continue
         if "load_error" in out:
             res.violate(V("valid-config-rejected", f"read_configs raised {out['load_error']}", site="read_configs"), case)
+            continue
+        if "post_load_error" in out:
+            res.violate(V("wrong-class-or-fields", f"what read_configs returned cannot be used: {out['post_load_error']} (loaded {out.get('loaded')})", site="read_configs"), case)
             continue
         exp = [expected_desc(e) for e in spec["entries"]]
         if out["loaded"] != exp:
